@@ -1,6 +1,6 @@
 (* C13 — every persisted/wire value round-trips; size bounds hold.
    Statements only: each theorem is closed by [exact <lemma>]; proofs live in Proofs/. *)
-From DB Require Import Base.Bytes Base.CRC32 Model.CodecEntry Proofs.CodecEntry Model.Frame Proofs.Frame
+From DB Require Import Base.Bytes Base.CRC32 Proofs.CRC32 Model.CodecEntry Proofs.CodecEntry Model.Frame Proofs.Frame
   Model.CodecProto Proofs.CodecProto Model.CodecUpdate Proofs.CodecUpdate
   Model.CodecPayload Proofs.CodecPayload.
 Open Scope N_scope.
@@ -74,6 +74,17 @@ Theorem frame_truncated_rejected : forall enc s h p rest k,
   forall h' p' rest', read_frame enc (firstn k s) <> Delivered h' p' rest'.
 Proof. exact frame_truncated_rejected_proved. Qed.
 Print Assumptions frame_truncated_rejected.
+
+(* any single-bit flip inside the payload of a delivered (unencrypted) frame is
+   rejected; crc32_single_bit_detected is proved in Proofs/CRC32.v.  (The same
+   statement for a flip inside the 18 header bytes is exercised exhaustively by the
+   harness; its proof - a case split over the header-CRC field - is not done yet.) *)
+Theorem frame_payload_bit_flip_rejected : forall hb p p' rest h,
+  read_frame false (magic ++ hb ++ p ++ rest) = Delivered h p rest ->
+  length hb = hdr_len -> wf_bytes p -> Proofs.CRC32.differ_one_bit p p' ->
+  read_frame false (magic ++ hb ++ p' ++ rest) = Bad.
+Proof. exact frame_payload_bit_flip_rejected_proved. Qed.
+Print Assumptions frame_payload_bit_flip_rejected.
 
 (* non-vacuity: a concrete frame is delivered, its 1-byte-shorter prefix is not *)
 Example frame_witness :
